@@ -29,6 +29,8 @@ class Stub:
 	def make(self, nm):
 		def f(*args, **kw):
 			self.calls.append((nm, args, kw))
+			if len(self.calls) > 25:
+				raise RuntimeError('sampler called more than 25 times for one demand (rejection loop on a fixed primitive value)')
 			return self.value
 		return f
 
@@ -109,7 +111,7 @@ def run(rep, drv):
 					warnings.simplefilter('ignore')
 					d = ds.generate_demand(t)
 			except Exception as e:
-				d = 'error:' + err_enum(e)
+				d = 'error:' + err_enum(e) + ' (' + str(e)[:120] + ')'
 			calls = list(st.calls)
 		mo = drv.call('demand', **case)
 		rep.exact_cmp += 1
